@@ -51,6 +51,7 @@ func TestC16(t *testing.T) {
 	r := newRun(t, "C16", "fault_enumeration")
 	defer r.Finish()
 	r.Rule = "prefix enumeration: every honest scenario (4 roles × 2 chains × {happy, payment failing, claim broadcast failing, fee unpaid}) is cut at every boundary crossing of the node (the peer dies there), optionally with one crash of the node before the cut; then the drain procedure runs: <=6 rounds of {advance the virtual clock 11 min and fire due timers; resolve pending HTLCs; heal services; mine past the payment windows and the CSV; restart}; the cuts of the happy scenarios (all cuts in thorough) are also drained with a restart before the first timer fires. Verdict in logical steps only. distinct = (chain, role, variant, cut op, final state)"
+	r.Rule += " In addition real makers against a scripted taker that answers the announcement once with {nothing, cancel, coop_close with a wrong key (once, twice), coop_close with a malformed key} and goes silent, with and without a restart while the maker waits for the CSV; same drain, same verdict."
 	r.Assumptions = []string{"bounded restatement of liveness: the fairness script is the drain procedure", "reference watcher delivers truthful notifications"}
 	type combo struct{ chain, typ, victim, variant string }
 	var combos []combo
